@@ -237,12 +237,12 @@ Qed.
 Lemma zlist_refl a : zlist_cmp a a = Eq.
 Proof. rewrite zlist_cmp_lex. apply lex_refl. apply Forall_forall. intros. apply Z.compare_refl. Qed.
 
-(* wf, unfolded *)
-Lemma wf_items v : wf v = true -> Forall (fun x => wf x = true) (items_of v).
+(* wfn, unfolded *)
+Lemma wfn_items v : wfn v = true -> Forall (fun x => wfn x = true) (items_of v).
 Proof.
   destruct v; cbn [items_of]; try (intros; constructor).
-  1-3: cbn [wf]; induction vs; intros H; constructor; apply andb_prop in H; destruct H; auto.
-  cbn [wf]. intros H. apply andb_prop in H. destruct H as [_ H].
+  1-3: cbn [wfn]; induction vs; intros H; constructor; apply andb_prop in H; destruct H; auto.
+  cbn [wfn]. intros H.
   induction kvs as [|[k x] r IH]; cbn [flat_pairs]; [constructor|].
   apply andb_prop in H. destruct H as [H H3]. apply andb_prop in H. destruct H. repeat constructor; auto.
 Qed.
@@ -279,24 +279,24 @@ Section Structural.
   (* the laws of the scalar comparisons (proved below, separately for every scalar kind) *)
   Hypothesis scalar_tbl : forall a b c, is_scalar a = true -> is_scalar b = true -> is_scalar c = true ->
     kind_rank a = kind_rank b -> kind_rank b = kind_rank c ->
-    wf a = true -> wf b = true -> wf c = true -> tbl scalar_cmp a b c.
+    wfn a = true -> wfn b = true -> wfn c = true -> tbl scalar_cmp a b c.
   Hypothesis scalar_anti : forall a b, is_scalar a = true -> is_scalar b = true ->
-    kind_rank a = kind_rank b -> wf a = true -> wf b = true -> scalar_cmp b a = CompOpp (scalar_cmp a b).
+    kind_rank a = kind_rank b -> wfn a = true -> wfn b = true -> scalar_cmp b a = CompOpp (scalar_cmp a b).
 
   Lemma lex_items_tbl a b c :
-    Forall (fun x => forall b c, wf x = true -> wf b = true -> wf c = true -> tbl vcmp x b c) (items_of a) ->
-    wf a = true -> wf b = true -> wf c = true ->
+    Forall (fun x => forall b c, wfn x = true -> wfn b = true -> wfn c = true -> tbl vcmp x b c) (items_of a) ->
+    wfn a = true -> wfn b = true -> wfn c = true ->
     tbl (fun a b => lex_cmp vcmp (items_of a) (items_of b)) a b c.
   Proof.
     intros H Wa Wb Wc.
     assert (T : tbl (lex_cmp vcmp) (items_of a) (items_of b) (items_of c)).
-    { apply (lex_tbl_q (fun x => wf x = true)); try (apply wf_items; assumption).
-      eapply Forall_mp; [|apply wf_items; exact Wa].
+    { apply (lex_tbl_q (fun x => wfn x = true)); try (apply wfn_items; assumption).
+      eapply Forall_mp; [|apply wfn_items; exact Wa].
       eapply Forall_impl; [|exact H]. cbn. intros x Hx Wx y z Wy Wz. apply Hx; auto. }
     exact T.
   Qed.
 
-  Lemma vcmp_tbl_struct a : forall vy vz, wf a = true -> wf vy = true -> wf vz = true -> tbl vcmp a vy vz.
+  Lemma vcmp_tbl_struct a : forall vy vz, wfn a = true -> wfn vy = true -> wfn vz = true -> tbl vcmp a vy vz.
   Proof.
     induction a using value_ind'; intros vy vz Wa Wb Wc;
       (apply (tbl_ext _ (ranked kind_rank vbody)); try apply vcmp_eqn; apply ranked_tbl; intros R1 R2).
@@ -313,16 +313,16 @@ Section Structural.
   Qed.
 
   Lemma lex_items_anti a y :
-    Forall (fun x => forall y, wf x = true -> wf y = true -> vcmp y x = CompOpp (vcmp x y)) (items_of a) ->
-    wf a = true -> wf y = true ->
+    Forall (fun x => forall y, wfn x = true -> wfn y = true -> vcmp y x = CompOpp (vcmp x y)) (items_of a) ->
+    wfn a = true -> wfn y = true ->
     lex_cmp vcmp (items_of y) (items_of a) = CompOpp (lex_cmp vcmp (items_of a) (items_of y)).
   Proof.
-    intros H Wa Wy. apply (lex_anti_q (fun x => wf x = true)); try (apply wf_items; assumption).
-    eapply Forall_mp; [|apply wf_items; exact Wa].
+    intros H Wa Wy. apply (lex_anti_q (fun x => wfn x = true)); try (apply wfn_items; assumption).
+    eapply Forall_mp; [|apply wfn_items; exact Wa].
     eapply Forall_impl; [|exact H]. cbn. intros x Hx Wx v Wv. apply Hx; auto.
   Qed.
 
-  Lemma vcmp_anti_struct a : forall vy, wf a = true -> wf vy = true -> vcmp vy a = CompOpp (vcmp a vy).
+  Lemma vcmp_anti_struct a : forall vy, wfn a = true -> wfn vy = true -> vcmp vy a = CompOpp (vcmp a vy).
   Proof.
     induction a using value_ind'; intros vy Wa Wb;
       (rewrite !vcmp_eqn; apply ranked_anti; intros R1).
@@ -335,7 +335,7 @@ Section Structural.
     - destruct vy; try discriminate R1. cbn [vbody]. apply zlist_anti.
   Qed.
 
-  Lemma vcmp_refl_struct a : wf a = true -> vcmp a a = Eq.
+  Lemma vcmp_refl_struct a : wfn a = true -> vcmp a a = Eq.
   Proof.
     intros W. pose proof (vcmp_anti_struct a a W W) as H. destruct (vcmp a a); cbn in H; congruence.
   Qed.
@@ -353,7 +353,7 @@ Qed.
 
 Lemma scalar_tbl : forall a b c, is_scalar a = true -> is_scalar b = true -> is_scalar c = true ->
     kind_rank a = kind_rank b -> kind_rank b = kind_rank c ->
-    wf a = true -> wf b = true -> wf c = true -> tbl scalar_cmp a b c.
+    wfn a = true -> wfn b = true -> wfn c = true -> tbl scalar_cmp a b c.
 Proof.
   intros a b c Sa Sb Sc R1 R2 Wa Wb Wc.
   destruct a; try discriminate Sa; destruct b; try discriminate Sb; try discriminate R1;
@@ -369,7 +369,7 @@ Proof.
 Qed.
 
 Lemma scalar_anti : forall a b, is_scalar a = true -> is_scalar b = true ->
-    kind_rank a = kind_rank b -> wf a = true -> wf b = true -> scalar_cmp b a = CompOpp (scalar_cmp a b).
+    kind_rank a = kind_rank b -> wfn a = true -> wfn b = true -> scalar_cmp b a = CompOpp (scalar_cmp a b).
 Proof.
   intros a b Sa Sb R1 Wa Wb.
   destruct a; try discriminate Sa; destruct b; try discriminate Sb; try discriminate R1.
@@ -381,29 +381,59 @@ Proof.
   - cbn. apply zlist_anti.
 Qed.
 
-Theorem vcmp_tbl a b c : wf a = true -> wf b = true -> wf c = true -> tbl vcmp a b c.
+Theorem vcmp_tbl_n a b c : wfn a = true -> wfn b = true -> wfn c = true -> tbl vcmp a b c.
 Proof. apply vcmp_tbl_struct. exact scalar_tbl. Qed.
 
-Theorem vcmp_anti a b : wf a = true -> wf b = true -> vcmp b a = CompOpp (vcmp a b).
+Theorem vcmp_anti_n a b : wfn a = true -> wfn b = true -> vcmp b a = CompOpp (vcmp a b).
 Proof. apply vcmp_anti_struct. exact scalar_anti. Qed.
 
-Theorem vcmp_refl a : wf a = true -> vcmp a a = Eq.
+Theorem vcmp_refl_n a : wfn a = true -> vcmp a a = Eq.
 Proof. apply vcmp_refl_struct. exact scalar_anti. Qed.
 
-Theorem vcmp_trans a b c : wf a = true -> wf b = true -> wf c = true ->
+Theorem vcmp_trans_n a b c : wfn a = true -> wfn b = true -> wfn c = true ->
   vcmp a b <> Gt -> vcmp b c <> Gt -> vcmp a c <> Gt.
 Proof.
-  intros Wa Wb Wc H1 H2. destruct (vcmp_tbl a b c Wa Wb Wc) as (T1 & T2 & T3 & T4).
+  intros Wa Wb Wc H1 H2. destruct (vcmp_tbl_n a b c Wa Wb Wc) as (T1 & T2 & T3 & T4).
   destruct (vcmp a b) eqn:E1; [|destruct (vcmp b c) eqn:E2|]; try congruence.
   - rewrite (T1 eq_refl). exact H2.
   - rewrite <- (T2 eq_refl). congruence.
   - rewrite (T3 eq_refl eq_refl). congruence.
 Qed.
 
-Theorem vcmp_total a b : wf a = true -> wf b = true -> vcmp a b <> Gt \/ vcmp b a <> Gt.
+Theorem vcmp_total_n a b : wfn a = true -> wfn b = true -> vcmp a b <> Gt \/ vcmp b a <> Gt.
 Proof.
-  intros Wa Wb. rewrite (vcmp_anti a b Wa Wb). destruct (vcmp a b); cbn; [left|left|right]; congruence.
+  intros Wa Wb. rewrite (vcmp_anti_n a b Wa Wb). destruct (vcmp a b); cbn; [left|left|right]; congruence.
 Qed.
+
+
+(* the full invariant (BTreeMap maps) implies the numeric part; the order laws restated *)
+Lemma wf_wfn v : wf v = true -> wfn v = true.
+Proof.
+  induction v using value_ind'; cbn [wf wfn]; auto.
+  1-3: (intros W; induction H as [|x xs Hx _ IH]; [reflexivity|]; apply andb_prop in W; destruct W as [W1 W2];
+        rewrite (Hx W1); cbn [andb]; apply IH; exact W2).
+  intros W. apply andb_prop in W. destruct W as [_ W].
+  induction H as [|[k x] r [Hk Hx] _ IH]; [reflexivity|]. cbn [fst snd] in *.
+  apply andb_prop in W. destruct W as [W W3]. apply andb_prop in W. destruct W as [W1 W2].
+  rewrite (Hk W1), (Hx W2). cbn [andb]. apply IH. exact W3.
+Qed.
+
+Lemma wf_items v : wf v = true -> Forall (fun x => wf x = true) (items_of v).
+Proof.
+  destruct v; cbn [items_of]; try (intros; constructor).
+  1-3: cbn [wf]; induction vs; intros H; constructor; apply andb_prop in H; destruct H; auto.
+  cbn [wf]. intros H. apply andb_prop in H. destruct H as [_ H].
+  induction kvs as [|[k x] r IH]; cbn [flat_pairs]; [constructor|].
+  apply andb_prop in H. destruct H as [H H3]. apply andb_prop in H. destruct H. repeat constructor; auto.
+Qed.
+
+
+Theorem vcmp_tbl a b c : wf a = true -> wf b = true -> wf c = true -> tbl vcmp a b c.
+Proof. intros. apply vcmp_tbl_n; apply wf_wfn; auto. Qed.
+Theorem vcmp_anti a b : wf a = true -> wf b = true -> vcmp b a = CompOpp (vcmp a b).
+Proof. intros. apply vcmp_anti_n; apply wf_wfn; auto. Qed.
+Theorem vcmp_refl a : wf a = true -> vcmp a a = Eq.
+Proof. intros. apply vcmp_refl_n; apply wf_wfn; auto. Qed.
 
 (* ------------------------------------------------------------------ *)
 (* equality and hashing                                               *)
